@@ -36,6 +36,9 @@ Embed(struct, b) ==
     [] struct = "unprot"  -> [kind |-> "unprot", m |-> [P |-> <<>>, U |-> b]]
     [] struct = "sign1P"  -> [kind |-> "sign1", m |-> [P |-> b, U |-> <<>>, payload |-> Pay, sig |-> SigB]]
     [] struct = "sign1U"  -> [kind |-> "sign1", m |-> [P |-> Fixed, U |-> b, payload |-> Pay, sig |-> SigB]]
+    [] struct = "manyP"   -> [kind |-> "sign1", m |-> [P |-> b, U |-> <<>>, payload |-> Pay, sig |-> SigB]]
+    [] struct = "manyU"   -> [kind |-> "sig", m |-> [P |-> Fixed, U |-> b, sig |-> SigB]]
+    [] struct = "manysigs" -> [kind |-> "sign", m |-> [P |-> Fixed, U |-> <<>>, payload |-> Pay, sigs |-> [i \in 1..Len(b) |-> [P |-> Fixed, U |-> <<b[i]>>, sig |-> SigB]]]]
     [] struct = "sign1Big" -> [kind |-> "sign1", m |-> [P |-> b, U |-> <<>>, payload |-> BigPayload, sig |-> SigB]]
     [] struct = "signBig"  -> [kind |-> "sign", m |-> [P |-> b, U |-> <<>>, payload |-> BigPayload, sigs |-> <<[P |-> Fixed, U |-> <<>>, sig |-> SigB]>>]]
     [] struct = "sign1uP" -> [kind |-> "sign1u", m |-> [P |-> b, U |-> <<>>, payload |-> NilPayload, sig |-> SigB]]
@@ -48,9 +51,12 @@ IsU(struct) == struct \in {"unprot", "sign1U", "csigU"}
 VARIABLE st
 Init == st = [phase |-> 0]
 PickStruct == st.phase = 0 /\ \E s \in Structs : st' = [phase |-> 1, struct |-> s]
-PickBucket == st.phase = 1 /\ \E b \in Buckets(IF IsU(st.struct) THEN UPool ELSE Pool) \cup (IF IsU(st.struct) THEN {} ELSE SizedBuckets) :
+\* header maps and signature lists whose COUNT crosses the head boundaries 23/24 and 255/256
+ManyBuckets == { [i \in 1..n |-> <<GoNeg("int64", 1000 + i * 37), GoInt("int64", i)>>] : n \in {23, 24, 255, 256, 300} }
+PickMany == st.phase = 1 /\ st.struct \in {"manyP", "manyU", "manysigs"} /\ \E b \in ManyBuckets : st' = [phase |-> 2, struct |-> st.struct, b |-> b]
+PickBucket == st.phase = 1 /\ st.struct \notin {"manyP", "manyU", "manysigs"} /\ \E b \in Buckets(IF IsU(st.struct) THEN UPool ELSE Pool) \cup (IF IsU(st.struct) THEN {} ELSE SizedBuckets) :
                  st' = [phase |-> 2, struct |-> st.struct, b |-> b]
-Next == PickStruct \/ PickBucket
+Next == PickStruct \/ PickBucket \/ PickMany
 Spec == Init /\ [][Next]_st
 
 Emit == st.phase # 2 \/ LET e == Embed(st.struct, st.b) IN
